@@ -106,7 +106,7 @@ def main(argv=None):
     spec = props.PROPS[args.pid]
     from checker import deductive, evidence
     try:
-        ded = deductive.run(run, spec, timeout=args.timeout or (20.0 if tier == "quick" else 90.0),
+        ded = deductive.run(run, spec, timeout=args.timeout or (8.0 if tier == "quick" else 90.0),
                             only=args.only, verbose=args.verbose)
         bnd = {"checks": [], "label": "bounded"}
         for fn in spec.get("bounded", []):
